@@ -898,6 +898,15 @@ def gen_http_template(rng, toks, length, profile="mixed"):
         # probe: a collection that becomes empty again has the tag it had when it was empty
         ops += [("MKCOL", "/user/probe"), ("PUT", "/user/probe/p.ics", "text/calendar", icals[0], "none", "none"),
                 ("GET", "/user/probe/p.ics", "none"), ("DELETE", "/user/probe/p.ics", "none")]
+    if profile in ("mixed", "tags", "git"):
+        # every name of the pools is written once at the start (some of these are refused: UID conflicts), so
+        # that each kind of name — blanks, literal percent signs, leading dot, `.git` inside — is a live member
+        # in every history and not only when the random walk happens to create it
+        for p_ in paths:
+            if p_.startswith(CAL + "/") or p_.startswith(BOOK + "/"):
+                cal_ = p_.startswith(CAL)
+                ops.append(("PUT", p_, "text/calendar" if cal_ else "text/vcard",
+                            rng.choice(icals) if cal_ else rng.choice(cards), "none", "none"))
     if profile == "sync" and len(icals) >= 2:
         # every history starts with one member created, changed and removed, a report after each step
         ops += [("PUT", CAL + "/a.ics", "text/calendar", icals[0], "none", "none"), ("SYNC", CAL, "all"),
